@@ -7,6 +7,7 @@ import (
 	"context"
 	"io"
 	"runtime"
+	"strings"
 	"sync/atomic"
 	"testing"
 	"time"
@@ -44,6 +45,12 @@ type Case struct {
 	ScanEvery   int
 	GoMaxProcs  int
 	Measure     bool // record block completion order with atomics (adds happens-before edges between decoders); false = callbacks only sleep
+	// RejectBlock[b]: the filter callbacks reject every element of block b, so
+	// the block decodes to zero objects (an empty result travels the pipeline).
+	RejectBlock []bool
+	SkipNodes, SkipWays, SkipRelations bool
+	// Headerless: the stream starts at the first data block (a resumed scan).
+	Headerless bool
 }
 
 type chunkReader struct {
@@ -76,7 +83,42 @@ func (r *chunkReader) Read(p []byte) (int, error) {
 
 var lastInversion bool
 
+// check runs the scan under a watchdog: a scan that blocks forever (a lost
+// block leaves the serializer waiting) is a violation, not a harness timeout.
 func check(c Case) error {
+	done := make(chan error, 1)
+	go func() {
+		defer func() {
+			if r := recover(); r != nil {
+				done <- harness.Failf("C02/panic", "panic: %v", r)
+			}
+		}()
+		done <- run(c)
+	}()
+	select {
+	case err := <-done:
+		return err
+	case <-time.After(15 * time.Second):
+		buf := make([]byte, 1<<20)
+		n := runtime.Stack(buf, true)
+		var blocked []string
+		for _, g := range strings.Split(string(buf[:n]), "\n\n") {
+			if strings.Contains(g, "github.com/paulmach/osm/osmpbf.") {
+				blocked = append(blocked, g)
+			}
+		}
+		if len(blocked) == 0 {
+			panic("harness: C02 case exceeded 15s without any osmpbf goroutine")
+		}
+		d := strings.Join(blocked, "\n\n")
+		if len(d) > 4000 {
+			d = d[:4000]
+		}
+		return harness.Failf("C02/hang", "scan did not finish within 15s (procs=%d, %d blocks); goroutines in osmpbf frames:\n%s", c.Procs, len(c.File.Blocks), d)
+	}
+}
+
+func run(c Case) error {
 	enc := c.File.Encode()
 	want, blockOf := c.File.Expected()
 	nb := len(c.File.Blocks)
@@ -96,36 +138,63 @@ func check(c Case) error {
 		}
 		return 0
 	}
+	skipped := func(o osm.Object) bool {
+		switch o.(type) {
+		case *osm.Node:
+			return c.SkipNodes
+		case *osm.Way:
+			return c.SkipWays
+		case *osm.Relation:
+			return c.SkipRelations
+		}
+		return false
+	}
+	rejected := func(b int) bool { return b < len(c.RejectBlock) && c.RejectBlock[b] }
+	var kept []osm.Object
 	for i, o := range want {
 		b := blockOf[i]
+		if skipped(o) {
+			continue
+		}
 		if firstIdx[b] < 0 {
 			firstIdx[b] = idOf(o)
 		}
 		lastIdx[b] = idOf(o)
+		if !rejected(b) {
+			kept = append(kept, o)
+		}
 	}
+	want = kept
 
 	old := runtime.GOMAXPROCS(c.GoMaxProcs)
 	defer runtime.GOMAXPROCS(old)
 
 	var done int64
 	finished := make([]int64, nb)
-	hook := func(id int64) {
+	hook := func(id int64) bool {
 		b := int(id/1000000) - 1
 		if b < 0 || b >= nb {
-			return
+			return true
 		}
+		defer func() {}()
 		if id == firstIdx[b] && b < len(c.BlockDelay) {
 			pause(c.BlockDelay[b])
 		}
 		if c.Measure && id == lastIdx[b] {
 			atomic.StoreInt64(&finished[b], atomic.AddInt64(&done, 1))
 		}
+		return !rejected(b)
 	}
-	r := &chunkReader{data: enc.Data, chunk: c.Chunk, every: c.ReadEvery, class: c.ReadDelay}
+	data := enc.Data
+	if c.Headerless {
+		data = data[enc.Header.End:]
+	}
+	r := &chunkReader{data: data, chunk: c.Chunk, every: c.ReadEvery, class: c.ReadDelay}
 	s := osmpbf.New(context.Background(), r, c.Procs)
-	s.FilterNode = func(n *osm.Node) bool { hook(int64(n.ID)); return true }
-	s.FilterWay = func(w *osm.Way) bool { hook(int64(w.ID)); return true }
-	s.FilterRelation = func(r *osm.Relation) bool { hook(int64(r.ID)); return true }
+	s.SkipNodes, s.SkipWays, s.SkipRelations = c.SkipNodes, c.SkipWays, c.SkipRelations
+	s.FilterNode = func(n *osm.Node) bool { return hook(int64(n.ID)) }
+	s.FilterWay = func(w *osm.Way) bool { return hook(int64(w.ID)) }
+	s.FilterRelation = func(r *osm.Relation) bool { return hook(int64(r.ID)) }
 
 	var got []osm.Object
 	var snaps []string
@@ -173,7 +242,7 @@ func distinctDelays(c Case) bool {
 func TestSchedules(t *testing.T) {
 	harness.Run(t, harness.Spec[Case]{
 		Name: "schedules", N: 250,
-		Rule: "files of 5..60 small non-empty blocks (all element kinds, sequential ids so an id names its block) x procs 1..32 (weighted to more decoders than blocks and more than the 10-slot channel budget) x a perturbation plan drawn by rapid: per-block decode delay in {0, yield, 50us, 500us, 3ms} injected from always-true filter callbacks, reader chunk size (1 byte .. whole file) with read delays, consumer delay per Scan, GOMAXPROCS in {1,2,4,16}; oracle = sequence equals the model (which C01 ties to the procs=1 scan), deep snapshot at receipt == at end, zero race-detector reports (the process runs under -race with halt_on_error); non-trivial = procs>=2 and either a measured completion inversion (a later block finished decoding before an earlier one) or, in the no-atomics mode, a plan with at least two different block delays",
+		Rule: "files of 5..60 small non-empty blocks (all element kinds, sequential ids so an id names its block) x procs 1..32 (weighted to more decoders than blocks and more than the 10-slot channel budget) x a perturbation plan drawn by rapid: per-block decode delay in {0, yield, 50us, 500us, 3ms} injected from always-true filter callbacks, reader chunk size (1 byte .. whole file) with read delays, consumer delay per Scan, GOMAXPROCS in {1,2,4,16}; a third of the plans make the filters reject runs of whole blocks (empty results in the pipeline), a quarter set skip flags, a fifth start at the first data block (resumed stream); oracle = sequence equals the model (which C01 ties to the procs=1 scan), deep snapshot at receipt == at end, zero race-detector reports (the process runs under -race with halt_on_error); non-trivial = procs>=2 and either a measured completion inversion (a later block finished decoding before an earlier one) or, in the no-atomics mode, a plan with at least two different block delays",
 		Gen: func(t *rapid.T) Case {
 			f := pbfgen.GenFile(t, pbfgen.Opt{MinBlocks: 5, MaxBlocks: 60, NonEmpty: true, SeqIDs: true, Small: true})
 			c := Case{File: f}
@@ -198,6 +267,22 @@ func TestSchedules(t *testing.T) {
 			c.ScanDelay = rapid.IntRange(0, 3).Draw(t, "scanDelay")
 			c.GoMaxProcs = rapid.SampledFrom([]int{1, 2, 4, 16}).Draw(t, "gomaxprocs")
 			c.Measure = rapid.IntRange(0, 2).Draw(t, "measure") != 0
+			if rapid.IntRange(0, 2).Draw(t, "reject?") == 0 {
+				// runs of fully rejected blocks: their empty results must still keep their slot
+				run := false
+				for range f.Blocks {
+					if rapid.IntRange(0, 3).Draw(t, "toggle") == 0 {
+						run = !run
+					}
+					c.RejectBlock = append(c.RejectBlock, run)
+				}
+			}
+			if rapid.IntRange(0, 3).Draw(t, "skip?") == 0 {
+				c.SkipNodes = rapid.Bool().Draw(t, "sn")
+				c.SkipWays = rapid.Bool().Draw(t, "sw")
+				c.SkipRelations = rapid.Bool().Draw(t, "sr")
+			}
+			c.Headerless = rapid.IntRange(0, 4).Draw(t, "headerless") == 0
 			return c
 		},
 		Check: check,
@@ -220,13 +305,25 @@ func TestSchedules(t *testing.T) {
 			if c.Procs > 10 {
 				cl = append(cl, "procs>10")
 			}
+			for _, rj := range c.RejectBlock {
+				if rj {
+					cl = append(cl, "has-fully-rejected-blocks")
+					break
+				}
+			}
+			if c.SkipNodes || c.SkipWays || c.SkipRelations {
+				cl = append(cl, "skip-flags")
+			}
+			if c.Headerless {
+				cl = append(cl, "headerless-start")
+			}
 			return nt, cl
 		},
 		Describe: func(c Case) any {
 			return map[string]any{"blocks": len(c.File.Blocks), "procs": c.Procs, "block_delay_classes": c.BlockDelay, "chunk": c.Chunk,
-				"read_every": c.ReadEvery, "read_delay": c.ReadDelay, "scan_every": c.ScanEvery, "scan_delay": c.ScanDelay, "gomaxprocs": c.GoMaxProcs, "measure": c.Measure}
+				"read_every": c.ReadEvery, "read_delay": c.ReadDelay, "scan_every": c.ScanEvery, "scan_delay": c.ScanDelay, "gomaxprocs": c.GoMaxProcs, "measure": c.Measure, "reject_block": c.RejectBlock, "skip": []bool{c.SkipNodes, c.SkipWays, c.SkipRelations}, "headerless": c.Headerless}
 		},
-		Floors:   map[string]float64{"measured-completion-inversion": 0.25, "procs>10": 0.2},
+		Floors:   map[string]float64{"measured-completion-inversion": 0.2, "procs>10": 0.2, "has-fully-rejected-blocks": 0.15, "headerless-start": 0.1},
 		Inflight: true,
 	})
 }
